@@ -43,7 +43,17 @@ func init() {
 	definePrelude("bitand", 2, SInt, "(declare-fun bitand (Int Int) Int)")
 	definePrelude("bitor", 2, SInt, "(declare-fun bitor (Int Int) Int)")
 	definePrelude("bitxor", 2, SInt, "(declare-fun bitxor (Int Int) Int)")
-	definePrelude("bitlen", 1, SInt, "(declare-fun bitlen (Int) Int)")
+	{
+		var sb strings.Builder
+		sb.WriteString("(define-fun bitlen ((x Int)) Int ")
+		for i := 0; i < 64; i++ {
+			sb.WriteString(fmt.Sprintf("(ite (< x %s) %d ", bigPow2(uint(i)).String(), i))
+		}
+		sb.WriteString("64")
+		sb.WriteString(strings.Repeat(")", 64))
+		sb.WriteString(")")
+		definePrelude("bitlen", 1, SInt, sb.String())
+	}
 	definePrelude("rev8", 1, SInt, "(declare-fun rev8 (Int) Int)")
 }
 
@@ -51,7 +61,7 @@ func init() {
 func preludeFor(names map[string]bool) string {
 	var sb strings.Builder
 	for _, n := range preludeOrder {
-		if names[n] {
+		if names[n] && preludeFuns[n].Def != "" {
 			sb.WriteString(preludeFuns[n].Def)
 			sb.WriteString("\n")
 		}
